@@ -308,8 +308,10 @@ impl World {
 			}
 			match self.chain.confirmed_spender(&op) {
 				None => {
-					if v < 1000 && self.nodes[st.victim].unsweepable_sat > 0 {
-						// too small to pay for its own sweep
+					if v < 1000 {
+						// too small to pay for its own claim at the minimum relay fee (the cheater cannot
+						// take it economically either)
+						self.out.bump("probe:revoked_output_too_small_to_claim");
 						continue;
 					}
 					problems.push(format!("output {} ({} sat) was never spent", op, v));
